@@ -50,6 +50,8 @@ def gen_programs(rep, tier, families=None):
             want = ["le=,sp=,ap=,pl=,pc=", "le=true,sp=u32,ap=u8,pl=,pc="]
             if tag.endswith(":rep") or tag.startswith(("obj:listoflists", "obj:withlist")):
                 want += ["le=true,sp=,ap=,pl=,pc=", "le=false,sp=u8,ap=u32,pl=,pc="]
+            if tag.endswith(":rep") or tag.startswith("dyn"):
+                want += ["le=true,sp=u64,ap=u64,pl=,pc="]
             if tag.startswith(("fix", "meta")):
                 want += ["le=,sp=u64,ap=u64,pl=true,pc=0"]
             if tag.startswith(("ck", "len")):
